@@ -387,7 +387,7 @@ func init() {
 	register(ruleZone)
 	addProp(&PropSpec{
 		ID:          "C17",
-		Rules:       []string{"R-ZONE", "R-HARD", "R-CMPMATRIX-DT", "R-PREDLOOP", "R-PAIR-C", "R-CTXZONE", "R-EMPTYPROD", "R-LAYOUT", "R-WALLCLOCK"},
+		Rules:       []string{"R-ZONE", "R-HARD", "R-CMPMATRIX-DT", "R-PREDLOOP", "R-PAIR-C", "R-CTXZONE", "R-EMPTYPROD", "R-LAYOUT", "R-WALLCLOCK", "R-TIMEPIN"},
 		Explanation: "The time-zone rules as shapes of the 5×5 cast and comparison matrices: each cell is walked with the source type fixed (abstract interpretation); a cell that crosses zone-awareness must be guarded by the WithTZ option, fail with a non-suppressible error otherwise, and compute its result through a call that reaches the context's time zone; cells that do not cross never raise that error; both matrices are exhaustive over the five types.",
 		Decided: []string{"R-ZONE: guard, hard error and context-zone dependence of every crossing cast/compare cell; no tz error in non-crossing cells",
 			"R-HARD: the tz errors are built directly on ErrExecution", "R-CMPMATRIX-DT: comparable iff both time-only or both date-bearing (25 cells)", "R-ZONE also reports a cast or comparison switch that lacks an arm for one of the five types"},
@@ -595,3 +595,148 @@ func (p *Prog) allCalls(fn *ssa.Function) []*ssa.Call {
 }
 
 func init() { register(ruleCtxZone) }
+
+// --- R-TIMEPIN: time-of-day values keep their date pinned ------------------------------------------
+
+var ruleTimePin = &Rule{
+	Name: "R-TIMEPIN", NeedSSA: true,
+	Doc: "the time-of-day types (types.Time, types.TimeTZ) compare as instants and rely on every value having the date 0000-01-01: wherever packages types and exec fill the Time field of one of them, the value is the result of time.Date with the constants 0, 1, 1 for year, month and day (the constructors), or — in the JSON readers only — what time.Parse made of the type's own time-only layouts; anything else (a rounded, shifted or copied time.Time stored directly) can carry another date, e.g. after rounding 23:59:59.9996 up",
+	Run: func(p *Prog) *RuleOut {
+		out := newOut("R-TIMEPIN")
+		ty := p.Pkgs[pkgTypes]
+		if ty == nil {
+			out.undecided("package types", "-", "", "anchor unresolved")
+			return out
+		}
+		tod := map[*types.Named]bool{}
+		for _, n := range []string{"Time", "TimeTZ"} {
+			if t, _ := lookupNamed(ty.Types, n); t != nil {
+				tod[t] = true
+			}
+		}
+		if len(tod) != 2 {
+			out.undecided("types.Time / types.TimeTZ", "-", "", "anchor unresolved")
+			return out
+		}
+		var pinned func(v ssa.Value, inReader bool, depth int) string
+		pinned = func(v ssa.Value, inReader bool, depth int) string {
+			if depth > 4 {
+				return "a value too deep to follow"
+			}
+			switch x := v.(type) {
+			case *ssa.Phi:
+				for _, e := range x.Edges {
+					if why := pinned(e, inReader, depth+1); why != "" {
+						return why
+					}
+				}
+				return ""
+			case *ssa.Extract:
+				if c, ok := x.Tuple.(*ssa.Call); ok && x.Index == 0 {
+					q := calleeQualified(&c.Call)
+					if q == "time.Parse" || q == "time.ParseInLocation" {
+						if inReader {
+							return ""
+						}
+						return "the result of " + q + " outside a JSON reader"
+					}
+					if sc := c.Call.StaticCallee(); sc != nil && !c.Call.IsInvoke() && inModule(sc) && sc.Blocks != nil {
+						for _, r := range returnsOf(sc) {
+							if len(r.Results) == 0 {
+								continue
+							}
+							if why := pinned(r.Results[0], inReader, depth+1); why != "" {
+								return why
+							}
+						}
+						return ""
+					}
+				}
+			case *ssa.Call:
+				if calleeQualified(&x.Call) == "time.Date" && len(x.Call.Args) == 8 {
+					y, ok1 := constInt(x.Call.Args[0])
+					m, ok2 := constInt(x.Call.Args[1])
+					d, ok3 := constInt(x.Call.Args[2])
+					if ok1 && ok2 && ok3 && y == 0 && m == 1 && d == 1 {
+						return ""
+					}
+					return "time.Date with a date other than the constants 0, 1, 1 (" + p.pos(x.Pos()) + ")"
+				}
+				if sc := x.Call.StaticCallee(); sc != nil && !x.Call.IsInvoke() && inModule(sc) && sc.Blocks != nil && sc.Signature.Results().Len() == 1 {
+					for _, r := range returnsOf(sc) {
+						if why := pinned(r.Results[0], inReader, depth+1); why != "" {
+							return why
+						}
+					}
+					return ""
+				}
+				return "the result of " + calleeName(&x.Call) + " (" + p.pos(x.Pos()) + ")"
+			case *ssa.Const:
+				return "" // the zero time.Time{} of an error return
+			case *ssa.UnOp:
+				// the zero value of a local that is returned with an error
+				if al, ok := x.X.(*ssa.Alloc); ok && x.Op == token.MUL {
+					stored := false
+					for _, r := range *al.Referrers() {
+						if _, ok := r.(*ssa.Store); ok {
+							stored = true
+						}
+					}
+					if !stored {
+						return ""
+					}
+				}
+			}
+			return trunc(v.String(), 50)
+		}
+		n := 0
+		ord := ordinals{}
+		var fns []*ssa.Function
+		for fn := range p.AllFns {
+			if (fnPkgPath(fn) == pkgTypes || fnPkgPath(fn) == pkgExec) && fn.Blocks != nil {
+				fns = append(fns, fn)
+			}
+		}
+		sortFuncs(fns)
+		for _, fn := range fns {
+			inReader := false
+			for f := fn; f != nil; f = f.Parent() {
+				if f.Name() == "UnmarshalJSON" {
+					inReader = true
+				}
+			}
+			for _, b := range fn.Blocks {
+				for _, ins := range b.Instrs {
+					st, ok := ins.(*ssa.Store)
+					if !ok {
+						continue
+					}
+					fa, ok := st.Addr.(*ssa.FieldAddr)
+					if !ok {
+						continue
+					}
+					pt, ok := fa.X.Type().Underlying().(*types.Pointer)
+					if !ok {
+						continue
+					}
+					nt := namedOf(pt.Elem())
+					if nt == nil || !tod[nt] {
+						continue
+					}
+					n++
+					key := fmt.Sprintf("%s fills %s.Time #%d", fnName(fn), nt.Obj().Name(), ord.next(fnName(fn)))
+					if why := pinned(st.Val, inReader, 0); why != "" {
+						out.viol(key, p.pos(st.Pos()), fnName(fn), "a "+nt.Obj().Name()+" is built around "+why+" instead of going through the constructor, which pins the date to 0000-01-01: a value that crossed midnight (rounding up 23:59:59.9996) prints as 00:00:00 but compares a day later than every other time of day")
+					} else {
+						out.ok(key, p.pos(st.Pos()), fnName(fn), "time.Date(0, 1, 1, …) or the type's own time-only layouts")
+					}
+				}
+			}
+		}
+		out.Counts["time_of_day_values_built"] = n
+		out.Floors["time_of_day_values_built"] = 2
+		return out
+	},
+}
+
+func init() { register(ruleTimePin) }
